@@ -117,7 +117,7 @@ func (c caseA) allowedOn(caller string, actions []string, perm, resource string)
 	}
 	if c.Mode == "policy" {
 		for _, a := range actions {
-			if model.PolicyAllows(c.Stmts, caller, a, resource) {
+			if model.PolicyAllows(canonical(c.Stmts), caller, a, resource) {
 				return true
 			}
 		}
@@ -245,6 +245,11 @@ func execA(c caseA) (v verdict, err error) {
 	if c.Mode == "policy" {
 		doc := renderDoc(c.Stmts)
 		if r := rootc.MustCall("PUT", "/"+bktA, s3c.Q("policy", ""), nil, []byte(doc)); !r.OK() {
+			if r.Status == 400 && oddEffect(c.Stmts) {
+				// an Effect not spelled "Allow" / "Deny" may be refused; once a document is accepted its statements bind
+				ev.Class("policy-effect-spelling-refused")
+				return v, nil
+			}
 			return v, fmt.Errorf("SETUP: generated policy refused: %v\n%s", r, doc)
 		}
 	} else {
@@ -359,12 +364,36 @@ func (c caseA) describe() string {
 	return fmt.Sprintf("ACL grants %v", c.Grants)
 }
 
-var objKeys = []string{"obj1", "a", "b", "ab", "dir/a", "dir/b", "dir/obj2", "newkey", "mp1"}
+// canonical: the statements with their Effect in the canonical spelling (what an accepted "deny" can only mean)
+func canonical(stmts []model.Statement) []model.Statement {
+	out := append([]model.Statement(nil), stmts...)
+	for i := range out {
+		switch {
+		case strings.EqualFold(out[i].Effect, "Deny"):
+			out[i].Effect = "Deny"
+		case strings.EqualFold(out[i].Effect, "Allow"):
+			out[i].Effect = "Allow"
+		}
+	}
+	return out
+}
+
+func oddEffect(stmts []model.Statement) bool {
+	for _, st := range stmts {
+		if st.Effect != "Allow" && st.Effect != "Deny" {
+			return true
+		}
+	}
+	return false
+}
+
+var objKeys = []string{"obj1", "a", "b", "ab", "dir/a", "dir/b", "dir/obj2", "newkey", "mp1", "dir/", "dirobj/", "dir/newdir/"}
 
 func stmtGen() *rapid.Generator[model.Statement] {
 	return rapid.Custom(func(t *rapid.T) model.Statement {
 		var s model.Statement
 		s.Effect = rapid.SampledFrom([]string{"Allow", "Allow", "Allow", "Deny"}).Draw(t, "effect")
+
 		if rapid.IntRange(0, 4).Draw(t, "p_star") == 0 {
 			s.Principals = []string{"*"}
 		} else {
@@ -374,7 +403,7 @@ func stmtGen() *rapid.Generator[model.Statement] {
 		actGen := rapid.OneOf(rapid.SampledFrom(all), rapid.SampledFrom(all), rapid.Just("s3:*"),
 			rapid.SampledFrom([]string{"s3:Get*", "s3:Put*", "s3:Delete*", "s3:List*", "s3:GetObject*", "s3:PutObject*", "s3:PutBucket*"}))
 		s.Actions = rapid.SliceOfNDistinct(actGen, 1, 4, rapid.ID[string]).Draw(t, "actions")
-		objRes := rapid.OneOf(rapid.Just(bktA+"/*"), rapid.SampledFrom([]string{bktA + "/a", bktA + "/a*", bktA + "/dir/*", bktA + "/?", bktA + "/obj1", bktA + "/*b", bktA + "/dir/a", bktA + "/new*", bktA + "/mp1", bktA + "/??", bktA + "/ob?1*", bktA + "/d?r/*", bktA + "/?bj*", bktA + "/*1", bktA + "/n?sted/*"}))
+		objRes := rapid.OneOf(rapid.Just(bktA+"/*"), rapid.SampledFrom([]string{bktA + "/a", bktA + "/a*", bktA + "/dir/*", bktA + "/?", bktA + "/obj1", bktA + "/*b", bktA + "/dir/a", bktA + "/new*", bktA + "/mp1", bktA + "/??", bktA + "/ob?1*", bktA + "/d?r/*", bktA + "/?bj*", bktA + "/*1", bktA + "/n?sted/*", bktA + "/dirobj/*", bktA + "/dir/newdir/*"}))
 		// always both kinds, so that the document is valid whatever the action kinds are
 		s.Resources = append([]string{bktA}, rapid.SliceOfNDistinct(objRes, 1, 2, rapid.ID[string]).Draw(t, "resources")...)
 		if rapid.IntRange(0, 3).Draw(t, "no_bucket_res") == 0 {
@@ -400,6 +429,16 @@ func genCase(t *rapid.T) caseA {
 	c.Mode = rapid.SampledFrom([]string{"policy", "policy", "acl"}).Draw(t, "mode")
 	if c.Mode == "policy" {
 		c.Stmts = rapid.SliceOfN(stmtGen(), 1, 4).Draw(t, "statements")
+		if rapid.IntRange(0, 11).Draw(t, "effect_spelling") == 0 {
+			// one statement whose Effect is not in the canonical spelling (most often a Deny: that is where it matters)
+			i := rapid.IntRange(0, len(c.Stmts)-1).Draw(t, "effect_stmt")
+			for j := range c.Stmts {
+				if c.Stmts[j].Effect == "Deny" {
+					i = j
+				}
+			}
+			c.Stmts[i].Effect = map[string][]string{"Allow": {"allow", "ALLOW"}, "Deny": {"deny", "DENY"}}[c.Stmts[i].Effect][rapid.IntRange(0, 1).Draw(t, "effect_case")]
+		}
 	} else {
 		c.Grants = map[string][]string{}
 		for _, p := range []string{"READ", "WRITE", "READ_ACP", "WRITE_ACP", "FULL_CONTROL"} {
@@ -432,6 +471,27 @@ func genCase(t *rapid.T) caseA {
 		}
 	}
 	c.Caller = rapid.SampledFrom([]string{"bob", "bob", "carol", "carol", "alice", "dave"}).Draw(t, "caller")
+	if c.Mode == "policy" && c.Spec.Bucket == "A" && (c.Caller == "bob" || c.Caller == "carol") && rapid.IntRange(0, 4).Draw(t, "aimed") == 0 {
+		// a policy aimed at this very request: a broad Allow and a Deny whose resource is derived from the key the
+		// request names (the key, its directory, a pattern over it) - the Deny must bind whatever shape the key has
+		k := strings.TrimPrefix(c.Spec.Key, "=")
+		narrow := []string{k, k + "*", "*" + k[1:], k[:len(k)-1] + "?"}
+		if i := strings.LastIndex(strings.TrimSuffix(k, "/"), "/"); i >= 0 {
+			narrow = append(narrow, k[:i+1]+"*", k[:i]+"/?*")
+		}
+		if strings.HasSuffix(k, "/") {
+			narrow = append(narrow, k+"*", k+"*", strings.TrimSuffix(k, "/")+"?")
+		}
+		who := rapid.SampledFrom([][]string{{c.Caller}, {"*"}, {"bob", "carol"}}).Draw(t, "aimed_principal")
+		allow := model.Statement{Effect: "Allow", Principals: who, Actions: []string{"s3:*"}, Resources: []string{bktA, bktA + "/*"}}
+		deny := model.Statement{Effect: "Deny", Principals: []string{c.Caller}, Actions: []string{rapid.SampledFrom([]string{"s3:*", "s3:Get*", "s3:Put*", "s3:Delete*", "s3:GetObject", "s3:PutObject", "s3:DeleteObject", "s3:PutObjectTagging", "s3:GetObjectTagging"}).Draw(t, "aimed_action")},
+			Resources: []string{bktA + "/" + rapid.SampledFrom(narrow).Draw(t, "aimed_resource")}}
+		if rapid.Bool().Draw(t, "aimed_deny_first") {
+			c.Stmts = []model.Statement{deny, allow}
+		} else {
+			c.Stmts = []model.Statement{allow, deny}
+		}
+	}
 	if c.Spec.Op == "DeleteObjects" {
 		c.Keys = rapid.SliceOfNDistinct(rapid.SampledFrom([]string{"a", "b", "ab", "dir/a", "dir/b", "obj1"}), 1, 4, rapid.ID[string]).Draw(t, "keys")
 	}
